@@ -142,6 +142,22 @@ type Conn struct {
 	// serverS belongs to the read loop once the handshake is over.
 	serverS Settings
 
+	// The response header block that is arriving, which the read loop decodes
+	// whether or not anybody is still waiting for the response: the dynamic
+	// table is shared by every response that follows. hdrStream is the stream
+	// it is on (0 between blocks), hdrPrev what a frame boundary cut off the
+	// field before, hdrFields the number of fields decoded so far, and
+	// hdrEndStream whether the HEADERS frame that opened it carried END_STREAM,
+	// which only takes effect when the block is complete. hdrErr is the first
+	// thing that was wrong with the response the block belongs to.
+	hdrStream      uint32
+	hdrPrev        []byte
+	hdrFields      int
+	hdrEndStream   bool
+	hdrRegularSeen bool
+	hdrStatus      int
+	hdrErr         error
+
 	state    connState
 	closeRef uint32
 
@@ -845,6 +861,23 @@ func (c *Conn) readLoop() {
 			break
 		}
 
+		// Nothing may come between the frames of a header block, and a
+		// CONTINUATION frame has to continue one.
+		// https://httpwg.org/specs/rfc7540.html#rfc.section.6.10
+		if c.hdrStream != 0 {
+			if fr.Type() != FrameContinuation || fr.Stream() != c.hdrStream {
+				c.setLastErr(NewGoAwayError(ProtocolError, "expected a CONTINUATION frame"))
+				ReleaseFrameHeader(fr)
+
+				break
+			}
+		} else if fr.Type() == FrameContinuation {
+			c.setLastErr(NewGoAwayError(ProtocolError, "unexpected CONTINUATION frame"))
+			ReleaseFrameHeader(fr)
+
+			break
+		}
+
 		// A stream-level WINDOW_UPDATE has to be applied whether or not a
 		// request is still waiting on the stream, so it is handled before the
 		// lookup in dispatch.
@@ -864,31 +897,69 @@ func (c *Conn) readLoop() {
 
 // dispatch hands a stream frame to the request waiting on it. It reports
 // whether the read loop should stop.
+//
+// The frame is gone through even when no request is waiting: DATA counts
+// against the connection window and a header block changes the HPACK table
+// whoever it was for.
 func (c *Conn) dispatch(fr *FrameHeader) bool {
-	r, ok := c.loadReq(fr.Stream())
-	if !ok {
-		return c.goneAway()
-	}
+	id := fr.Stream()
+
+	r, ok := c.loadReq(id)
 
 	// A canceled or finished request has taken its Response back, so there is
 	// nowhere to put this frame. Drop the stream and carry on.
-	if !r.acquireFor(c, fr.Stream()) {
-		c.dequeueReq(fr.Stream())
+	if ok && !r.acquireFor(c, id) {
+		c.dequeueReq(id)
 
-		return false
+		ok = false
 	}
 
-	// Released on the way out even if readStream panics: leaving the Ctx locked
-	// would wedge the RoundTrip that is waiting to take it back.
-	defer r.release()
+	var res *fasthttp.Response
 
-	err := c.readStream(fr, r.Response)
-	if err == nil {
-		if fr.Flags().Has(FlagEndStream) {
-			c.finish(r, fr.Stream(), nil)
+	if ok {
+		// Released on the way out even if readStream panics: leaving the Ctx
+		// locked would wedge the RoundTrip that is waiting to take it back.
+		defer r.release()
+
+		res = r.Response
+	}
+
+	ended, err := c.readStream(fr, res)
+
+	// A header block has to be right for where the response stands: the
+	// response headers come first, trailers may only come after them.
+	if ok && err == nil && c.hdrStream == 0 && (fr.Type() == FrameHeaders || fr.Type() == FrameContinuation) {
+		switch {
+		case c.hdrStatus == 0:
+			if !r.gotStatus || !c.hdrEndStream {
+				err = errInvalidStatus
+			}
+		case r.gotStatus:
+			err = errInvalidStatus
+		default:
+			r.gotStatus = c.hdrStatus >= 200
 		}
-	} else {
-		c.finish(r, fr.Stream(), err)
+	}
+
+	// An error of the connection (a header block that does not decode) is the
+	// end of it, not only of this request.
+	var connErr Error
+	if errors.As(err, &connErr) && connErr.frameType == FrameGoAway {
+		c.setLastErr(err)
+
+		if ok {
+			c.finish(r, id, err)
+		}
+
+		return true
+	}
+
+	if ok {
+		if err != nil {
+			c.finish(r, id, err)
+		} else if ended {
+			c.finish(r, id, nil)
+		}
 	}
 
 	if err != nil && errors.Is(err, FlowControlError) {
@@ -1521,25 +1592,41 @@ func (c *Conn) handlePing(ping *Ping) {
 	c.writeOut(fr)
 }
 
-func (c *Conn) readStream(fr *FrameHeader, res *fasthttp.Response) (err error) {
+// readStream takes a frame in for the response res, which is nil when nobody
+// is waiting for it any more. ended reports that the frame completed the
+// response.
+func (c *Conn) readStream(fr *FrameHeader, res *fasthttp.Response) (ended bool, err error) {
 	switch fr.Type() {
-	case FrameHeaders, FrameContinuation:
-		h := fr.Body().(FrameWithHeaders)
-		err = c.readHeader(h.Headers(), res)
+	case FrameHeaders:
+		c.hdrPrev = c.hdrPrev[:0]
+		c.hdrFields = 0
+		c.hdrRegularSeen = false
+		c.hdrStatus = 0
+		c.hdrErr = nil
+		c.hdrEndStream = fr.Flags().Has(FlagEndStream)
+
+		return c.readHeaderFragment(fr.Stream(), fr.Body().(*Headers).Headers(), fr.Flags().Has(FlagEndHeaders), res)
+	case FrameContinuation:
+		return c.readHeaderFragment(fr.Stream(), fr.Body().(*Continuation).Headers(), fr.Flags().Has(FlagEndHeaders), res)
 	case FrameResetStream:
 		// The server gave up on the stream. Without this the request would sit
 		// there until MaxResponseTime, or forever if that check is disabled.
 		err = NewResetStreamError(
 			fr.Body().(*RstStream).Code(), "stream reset by the server")
 	case FrameData:
+		// Flow control counts the whole payload, padding included, and counts
+		// it whether or not the body goes anywhere.
 		c.currentWindow -= int32(fr.Len())
 		currentWin := c.currentWindow
 
 		data := fr.Body().(*Data)
-		if data.Len() != 0 {
+		if res != nil && data.Len() != 0 {
 			res.AppendBody(data.Data())
+		}
 
-			// let's send the window update
+		// let's send the window update: not for a stream that is over
+		ended = fr.Flags().Has(FlagEndStream)
+		if res != nil && fr.Len() != 0 && !ended {
 			c.updateWindow(fr.Stream(), fr.Len())
 		}
 
@@ -1552,7 +1639,7 @@ func (c *Conn) readStream(fr *FrameHeader, res *fasthttp.Response) (err error) {
 		}
 	}
 
-	return err
+	return ended, err
 }
 
 func (c *Conn) updateWindow(streamID uint32, size int) {
@@ -1568,23 +1655,34 @@ func (c *Conn) updateWindow(streamID uint32, size int) {
 	c.writeOut(fr)
 }
 
-func (c *Conn) readHeader(b []byte, res *fasthttp.Response) error {
-	var err error
+// readHeaderFragment decodes one frame's worth of a response header block.
+// The fields go to res if it is there; a field the response may not have is
+// remembered and reported once the whole block has been decoded, because the
+// rest of the block still has to go through the decoder.
+func (c *Conn) readHeaderFragment(id uint32, fragment []byte, endHeaders bool, res *fasthttp.Response) (ended bool, err error) {
+	b := append(c.hdrPrev, fragment...)
+	c.hdrPrev = b[:0]
+
 	hf := AcquireHeaderField()
 	defer ReleaseHeaderField(hf)
 
-	dec := c.dec
-
-	var regularSeen bool
-
-	fields := 0
-
 	for len(b) > 0 {
+		pb := b
+
 		var decoded bool
 
-		b, decoded, err = dec.nextField(hf, true, fields, b)
+		b, decoded, err = c.dec.nextField(hf, true, c.hdrFields, b)
 		if err != nil {
-			return err
+			// A field that is cut short is only an error if no more of the
+			// block is coming.
+			if errors.Is(err, ErrUnexpectedSize) && !endHeaders {
+				c.hdrPrev = append(c.hdrPrev, pb...)
+				break
+			}
+
+			c.hdrStream = 0
+
+			return false, NewGoAwayError(CompressionError, err.Error())
 		}
 
 		if !decoded {
@@ -1592,50 +1690,80 @@ func (c *Conn) readHeader(b []byte, res *fasthttp.Response) error {
 			break
 		}
 
-		fields++
+		c.hdrFields++
 
-		// A response carries exactly one pseudo-header, :status, and it must
-		// come before any regular field.
-		// https://httpwg.org/specs/rfc7540.html#rfc.section.8.1.2.4
-		if hf.IsPseudo() {
-			if regularSeen {
-				return errPseudoAfterRegular
-			}
+		if res != nil && c.hdrErr == nil {
+			c.hdrErr = c.readHeaderField(hf, res)
+		}
+	}
 
-			if !bytes.Equal(hf.KeyBytes(), StringStatus) {
-				return fmt.Errorf("invalid response pseudo-header %q", hf.KeyBytes())
-			}
+	if !endHeaders {
+		c.hdrStream = id
 
-			n, err := parseUint(hf.ValueBytes())
-			if err != nil || n < 100 || n > 999 {
-				return errInvalidStatus
-			}
+		if len(c.hdrPrev) > DefaultMaxHeaderListSize {
+			c.hdrStream = 0
 
-			res.SetStatusCode(n)
-
-			continue
+			return false, NewGoAwayError(EnhanceYourCalm, "header field is too large")
 		}
 
-		regularSeen = true
+		return false, nil
+	}
 
-		if hasUpperCase(hf.KeyBytes()) {
-			return errUpperCaseHeader
+	c.hdrStream = 0
+	c.hdrPrev = c.hdrPrev[:0]
+
+	if c.hdrErr != nil {
+		return false, c.hdrErr
+	}
+
+	return c.hdrEndStream, nil
+}
+
+// readHeaderField checks one decoded field of a response and puts it in res.
+func (c *Conn) readHeaderField(hf *HeaderField, res *fasthttp.Response) error {
+	// A response carries exactly one pseudo-header, :status, and it must
+	// come before any regular field.
+	// https://httpwg.org/specs/rfc7540.html#rfc.section.8.1.2.4
+	if hf.IsPseudo() {
+		if c.hdrRegularSeen {
+			return errPseudoAfterRegular
 		}
 
-		if isConnectionSpecific(hf.KeyBytes()) {
-			return errConnectionSpecific
+		if !bytes.Equal(hf.KeyBytes(), StringStatus) {
+			return fmt.Errorf("invalid response pseudo-header %q", hf.KeyBytes())
 		}
 
-		if bytes.Equal(hf.KeyBytes(), StringContentLength) {
-			n, err := parseUint(hf.ValueBytes())
-			if err != nil {
-				return errInvalidContentLength
-			}
-
-			res.Header.SetContentLength(n)
-		} else {
-			res.Header.AddBytesKV(hf.KeyBytes(), hf.ValueBytes())
+		n, err := parseUint(hf.ValueBytes())
+		if err != nil || n < 100 || n > 999 || c.hdrStatus != 0 {
+			return errInvalidStatus
 		}
+
+		c.hdrStatus = n
+
+		res.SetStatusCode(n)
+
+		return nil
+	}
+
+	c.hdrRegularSeen = true
+
+	if hasUpperCase(hf.KeyBytes()) {
+		return errUpperCaseHeader
+	}
+
+	if isConnectionSpecific(hf.KeyBytes()) {
+		return errConnectionSpecific
+	}
+
+	if bytes.Equal(hf.KeyBytes(), StringContentLength) {
+		n, err := parseUint(hf.ValueBytes())
+		if err != nil {
+			return errInvalidContentLength
+		}
+
+		res.Header.SetContentLength(n)
+	} else {
+		res.Header.AddBytesKV(hf.KeyBytes(), hf.ValueBytes())
 	}
 
 	return nil
